@@ -172,7 +172,24 @@ struct StreamTest {
 		}
 		++g_distinct;
 	}
+	// buffer comparison is equality of contents: two streams differing in exactly one bit, for every bit of the capacity
+	static void singleBitDifferences(int rounds) {
+		for (int k = 0; k < rounds; ++k) {
+			std::vector<uint32_t> bits(BITS);
+			for (auto& b : bits) b = (k == 0) ? 0u : (k == 1) ? 1u : (uint32_t)(rnd() & 1u);
+			Heap<Buf> ha; Buf& a = *ha; a.clear(); { W w{a}; for (unsigned i = 0; i < BITS; ++i) write(w, 1, bits[i]); }
+			for (unsigned p = 0; p < BITS; ++p) {
+				Heap<Buf> hb; Buf& b = *hb; b.clear(); { W w{b}; for (unsigned i = 0; i < BITS; ++i) write(w, 1, i == p ? bits[i] ^ 1u : bits[i]); }
+				++g_checks;
+				if ((a == b) || !(a != b)) { V("stream|different-contents-compare-equal", "capacity=" + std::to_string(BITS) + " differing-bit=" + std::to_string(p)); return; }
+				Heap<Buf> hc; Buf& c = *hc; c.clear(); { W w{c}; for (unsigned i = 0; i < BITS; ++i) write(w, 1, bits[i]); }
+				if (!(a == c) || (a != c)) { V("stream|equal-contents-compare-unequal", "capacity=" + std::to_string(BITS)); return; }
+			}
+			++g_distinct;
+		}
+	}
 	static void run(int randomSeqs) {
+		singleBitDifferences(randomSeqs >= 1000 ? 12 : 4);
 		// every (start alignment, width) pair with 64 values each, followed by a sentinel
 		for (unsigned off = 0; off < 8; ++off)
 			for (unsigned width = 1; width <= 32; ++width) {
@@ -204,6 +221,7 @@ int main(int argc, char** argv) {
 	arrays<4, 5, 6, 10, 11, 12, 13, 14, 18, 19, 20, 21, 22, 23, 24, 25, 26, 27, 28, 29, 30, 31, 32, 33, 34, 35, 36, 37, 38, 39, 40>(false, ops);
 	arrays<63, 64, 65, 127, 128, 255>(false, ops);
 	StreamTest<40>::run(thorough ? 4000 : 300); StreamTest<271>::run(thorough ? 3000 : 300);
+	StreamTest<9>::singleBitDifferences(6); StreamTest<16>::singleBitDifferences(6); StreamTest<17>::singleBitDifferences(6); StreamTest<33>::singleBitDifferences(6); StreamTest<64>::singleBitDifferences(6);
 	printf("Z %llu %llu %d %ld\n", g_checks, g_distinct, g_viol, g_breaks);
 	return 0;
 }
